@@ -9,7 +9,8 @@
    structural oracle of harness/c23 on the real code, not by a theorem.
    [evs ts s]: from some amount of fuel on, the parser returns s on ts (the
    parser is a fuel-indexed function, so the result is unique). *)
-From V Require Import Base.Bytes Lang.Grammar Lang.Unparse Proofs.UnparseProofs.
+From V Require Import Base.Bytes Lang.Grammar Lang.Unparse Proofs.UnparseProofs
+  Lang.UnparseDecl Proofs.UnparseDeclProofs.
 
 (* for every expression statement a - there is no side condition, every tree
    over the constructors is covered - parsing the tokens of unparse a yields a *)
@@ -19,6 +20,15 @@ Proof. exact roundtrip. Qed.
 (* what the parser returns is unique *)
 Theorem C23_parse_functional : forall ts s1 s2, evs ts s1 -> evs ts s2 -> s1 = s2.
 Proof. exact evs_functional. Qed.
+
+(* an answer of the parser at any fuel is its answer at every larger fuel *)
+Theorem C23_parse_stable : forall f ts s, pstmt f ts = Some s -> evs ts s.
+Proof. exact pstmt_stable. Qed.
+
+(* so the fixed-fuel [parse] used in the correspondence check can only answer
+   with the tree that was formatted *)
+Theorem C23_parse_unparse_sound : forall a s', parse (unparse a) = Some s' -> s' = a.
+Proof. exact parse_unparse_sound. Qed.
 
 (* formatting, parsing and formatting again gives the same tokens *)
 Theorem C23_idempotent : forall a s', evs (unparse a) s' -> unparse s' = unparse a.
@@ -41,6 +51,30 @@ Theorem C23_roundtrip_old_unary_refuted :
   exists a b, parse (unparse_old a) = Some b /\ b <> a.
 Proof. eexists _, _. exact old_drops_parens_unary. Qed.
 
+(* declarations: for every declaration d (hidden flag, kind, name, keys, limit,
+   buckets, exported name - no side condition) parsing what the repaired
+   unparser prints gives d back *)
+Theorem C23_decl_roundtrip : forall d : decl, parse_decl (unparse_decl d) = Some d.
+Proof. exact decl_roundtrip. Qed.
+
+(* before the repairs: `hidden counter c as "d"` comes back as `counter c`, and
+   formatting that again gives the same text *)
+Theorem C23_decl_old_refuted :
+  exists d d', parse_decl (unparse_decl_old (fun b => b) d) = Some d' /\ d' <> d /\
+               unparse_decl_old (fun b => b) d' = unparse_decl_old (fun b => b) d.
+Proof. eexists _, _. exact decl_old_loses_attributes. Qed.
+
+(* a negative limit was dropped *)
+Theorem C23_decl_old_limit_refuted :
+  exists d d', parse_decl (unparse_decl_old (fun b => b) d) = Some d' /\ d' <> d.
+Proof. eexists. exact decl_old_loses_limit. Qed.
+
+(* any bucket boundary that %f does not reproduce was changed *)
+Theorem C23_decl_old_buckets_refuted :
+  forall (f6 : N -> N) b, f6 b <> b ->
+    exists d d', parse_decl (unparse_decl_old f6 d) = Some d' /\ d' <> d.
+Proof. intros f6 b H. eexists. exact (decl_old_loses_buckets f6 b H). Qed.
+
 (* non-vacuity, with the fixed fuel of [parse]: (1 + 2) * 3 and
    c = $x =~ /a/ && ~(1 - (2 - 3++)) *)
 Example C23_roundtrip_example :
@@ -53,7 +87,13 @@ Proof. exact new_keeps_parens. Qed.
 
 Print Assumptions C23_roundtrip.
 Print Assumptions C23_parse_functional.
+Print Assumptions C23_parse_stable.
+Print Assumptions C23_parse_unparse_sound.
 Print Assumptions C23_idempotent.
+Print Assumptions C23_decl_roundtrip.
+Print Assumptions C23_decl_old_refuted.
+Print Assumptions C23_decl_old_limit_refuted.
+Print Assumptions C23_decl_old_buckets_refuted.
 Print Assumptions C23_roundtrip_old_refuted.
 Print Assumptions C23_roundtrip_old_right_refuted.
 Print Assumptions C23_roundtrip_old_unary_refuted.
